@@ -48,10 +48,15 @@ def opLayout (j : Json) : Except String Json := do
     let n := nS + nS*nP + nS*nS
     pure (outMat n n (odeAndSensitivityIVJacobian nS nP (← M "J") (← M "GJ") (← M "DJ") (← V "z")))
   | "evalForwardForward" =>
-    pure (outMat (nS*nP) nP (evalForwardForward nS nP (← M "J") (← M "DJ") (← M "FF") (← M "S")))
+    pure (outMat (nS*nP) nP (evalForwardForward nS nP (← M "J") (← M "DJ") (← M "GJ") (← M "GG") (← M "FF") (← M "S")))
+  | "evalForwardForwardAsFound" =>
+    pure (outMat (nS*nP) nP (evalForwardForwardAsFound nS nP (← M "J") (← M "DJ") (← M "FF") (← M "S")))
   | "odeAndForwardForward" =>
     pure (outVec (nS + nS*nP + nS*nP*nP)
-      (odeAndForwardForward nS nP (← V "f") (← M "J") (← M "G") (← M "DJ") (← V "z")))
+      (odeAndForwardForward nS nP (← V "f") (← M "J") (← M "G") (← M "DJ") (← M "GJ") (← M "GG") (← V "z")))
+  | "odeAndForwardForwardAsFound" =>
+    pure (outVec (nS + nS*nP + nS*nP*nP)
+      (odeAndForwardForwardAsFound nS nP (← V "f") (← M "J") (← M "G") (← M "DJ") (← V "z")))
   | "sensToJtj" =>
     let sens ← matOfJson (fld j "sens")
     let numS ← natFld j "numS"
@@ -65,11 +70,12 @@ def opLayout (j : Json) : Except String Json := do
     let stateIdx ← natsOrNilOfJson (fld j "stateIdx")
     let paramIdx ← natsOrNilOfJson (fld j "paramIdx")
     let q := paramIdx.length
-    let variant := (fld j "variant").getStr?.toOption.getD "coded"
-    if variant == "repaired" then
-      pure (outMat q q (hessianRepaired nS nP ffs.length stateIdx paramIdx (← M "dl") (← M "w") FF (← M "JTJ")))
+    -- "source" = the code as it is (sign / weight of the second-order term as repaired by fix 0f0d14a); "as_found" = before
+    let variant := (fld j "variant").getStr?.toOption.getD "source"
+    if variant == "as_found" then
+      pure (outMat q q (hessianAsFound nS nP ffs.length stateIdx paramIdx (← M "dl") FF (← M "JTJ")))
     else
-      pure (outMat q q (hessianCoded nS nP ffs.length stateIdx paramIdx (← M "dl") FF (← M "JTJ")))
+      pure (outMat q q (hessian nS nP ffs.length stateIdx paramIdx (← M "dl") (← M "w") FF (← M "JTJ")))
   | f => .error s!"unknown layout function {f}"
 
 def handleSens (op : String) (j : Json) : Option (Except String Json) :=
